@@ -13,10 +13,12 @@ import time
 
 VERIF = os.path.dirname(os.path.dirname(os.path.abspath(__file__)))
 SPEC = os.path.join(VERIF, "spec")
-HARNESS = os.path.join(VERIF, "harness")
-WORK = os.path.join(VERIF, "work")
-REPLAYS = os.path.join(VERIF, "replays")
-EVID = os.path.join(VERIF, "evidence")
+# the registered checks always use /verif and /repo; the overrides exist for the seeded-change self tests,
+# which run the same machinery against a scratch copy of the repository
+HARNESS = os.environ.get("VERIF_HARNESS_DIR", os.path.join(VERIF, "harness"))
+WORK = os.environ.get("VERIF_WORK_DIR", os.path.join(VERIF, "work"))
+REPLAYS = os.environ.get("VERIF_REPLAYS_DIR", os.path.join(VERIF, "replays"))
+EVID = os.environ.get("VERIF_EVID_DIR", os.path.join(VERIF, "evidence"))
 NCPU = os.cpu_count() or 4
 JAVA_TRACE_OPTS = "-Xss1g -Dtlc2.tool.queue.IStateQueue=StateDeque"
 
@@ -53,13 +55,16 @@ def build_harness():
     if _built:
         return _built
     env = dict(os.environ, CARGO_NET_OFFLINE="true")
+    tgt = os.environ.get("VERIF_HARNESS_TARGET")
+    if tgt:
+        env["CARGO_TARGET_DIR"] = tgt
     t0 = time.time()
     p = subprocess.run(["cargo", "build", "--release", "--offline"], cwd=HARNESS, env=env,
                        stdout=subprocess.PIPE, stderr=subprocess.STDOUT, text=True)
     if p.returncode != 0:
         sys.stderr.write(p.stdout[-4000:])
         raise ToolError("harness build failed (does /repo still compile with --cfg multiqueue2_verif?)")
-    _built = os.path.join(HARNESS, "target", "release", "mqh")
+    _built = os.path.join(tgt or os.path.join(HARNESS, "target"), "release", "mqh")
     log("  [build] harness built in %.1fs" % (time.time() - t0))
     return _built
 
